@@ -588,6 +588,19 @@ impl<'t> Gen<'t> {
       cx.env.insert(i, e);
     }
     let call = self.self_call(fs, cx, args);
+    // the result of the recursive call is discarded and the step yields its own (often literal) value
+    if self.t.bool(1, 9) {
+      self.feat("recursion:result-discarded");
+      let saved = cx.rec.take();
+      let value = if self.t.bool(2, 3) { self.leaf(&fs.ret, cx) } else { self.expr(&fs.ret, cx, 1) };
+      cx.rec = saved;
+      let mut stmts = vec![];
+      if self.cfg.effects_in_rec_call_args && self.t.bool(1, 2) {
+        stmts.push(Stmt::Expr(self.println_of_env(cx)));
+      }
+      stmts.push(Stmt::Let { pat: Pat::Wild, annot: None, init: call });
+      return Expr::new(fs.ret.clone(), EK::Block { stmts, last: Some(Box::new(value)) });
+    }
     let tail = self.t.bool(1, 2);
     if tail {
       self.feat("recursion:tail");
